@@ -432,6 +432,32 @@ func (s *lstate) withVal(v atomID, idx lin) *lstate {
 	return out
 }
 
+// bytesContradict: two unconditional byte facts speak about the same index (provably equal index terms) and
+// exclude each other.
+func (s *lstate) bytesContradict(at *atomTable) bool {
+	if s == nil {
+		return true
+	}
+	for i := 0; i < len(s.bf); i++ {
+		if s.bf[i].g != 0 {
+			continue
+		}
+		for j := i + 1; j < len(s.bf); j++ {
+			if s.bf[j].g != 0 {
+				continue
+			}
+			if !s.bf[i].set.inter(s.bf[j].set).empty() {
+				continue
+			}
+			d := s.bf[i].idx.sub(s.bf[j].idx)
+			if s.proves(at, lfact{l: d}) && s.proves(at, lfact{l: d.scale(-1)}) {
+				return true
+			}
+		}
+	}
+	return false
+}
+
 func (s *lstate) bytesKey() string {
 	if len(s.bf) == 0 && len(s.bv) == 0 {
 		return ""
@@ -1267,6 +1293,9 @@ func (s *lstate) lowerBound(at *atomTable, l lin) (int64, bool) {
 // the weakest of the lower bounds the inputs prove. restrictTo (the previous state at a loop head)
 // makes the result a weakening of it; with softRestrict off, a shape whose bound is still moving is
 // dropped (widening).
+// joinByteRefute: byte facts are in use; joins try to improve integer bounds by refutation over them.
+var joinByteRefute bool
+
 func joinLin(at *atomTable, in []*lstate, zeros [][]lin, restrictTo *lstate, extra ...atomID) *lstate {
 	var live []*lstate
 	var liveZ [][]lin
@@ -1416,6 +1445,12 @@ func joinLin(at *atomTable, in []*lstate, zeros [][]lin, restrictTo *lstate, ext
 			if !has {
 				ok = false
 				break
+			}
+			if joinByteRefute && len(s.bf) >= 2 && len(l.t) <= 2 && (i == 0 || v < m) {
+				// the bound may be improvable by one: l <= v contradicts what is known about two bytes that then coincide
+				if s2 := s.with(lfact{l: l.scale(-1).add(linConst(v))}); s2 == nil || s2.bytesContradict(at) {
+					v++
+				}
 			}
 			if i == 0 || v < m {
 				m = v
